@@ -185,7 +185,8 @@ def part_c(c: Check):
             or not any(not e["qlog"] for e in prof) or len(set(e["proto"] for e in prof if e["logs"])) < 4:
         raise Undecided("stack harness vacuous: %d requests, %d attributed" % (len(ev), len(prof)))
     vias = Counter(e["via"] for e in ev)
-    if not vias["dedicated-ip"] or not vias["dedicated-ip/deleted-profile"] or not vias["sni/deleted-profile"]:
+    if not vias["dedicated-ip"] or not vias["dedicated-ip/deleted-profile"] or not vias["sni/deleted-profile"] \
+            or not vias["linked-ip-not-enabled-here"] or not vias["linked-ip"]:
         raise Undecided("stack harness vacuous: ways of recognition %s" % dict(vias))
     path = os.path.join(c.scratch, "c15c.ndjson")
     write_ndjson(path, ev)
